@@ -267,28 +267,89 @@ def check_sentinels(prog, rep, m, names, rule='M7-sentinel'):
 
 
 
-def flat_alias_of_like(f):
+def _layout_of(prog, f, base, depth=0, _callers=None):
+    """the `*_like` allocation call that gives the array `base` of function f its memory layout, following a parameter to the
+    argument at every call site of f inside the program unit (up to 3 levels); None when no such allocation is found (the
+    array has a layout of its own: np.zeros(shape) ..., or its origin is not visible)."""
+    import ast as _ast
+    from .program import norm as _norm, Func as _Func, Partial as _Partial
+    allocs = [v for v in f.local_assigns().get(base, []) if isinstance(v, _ast.Call)]
+    like = [v for v in allocs if _norm(v.func).split('.')[-1].endswith('_like')]
+    if like:
+        return like[0]
+    if prog is None or base not in f.params or depth >= 3:
+        return None
+    for h in prog.all_funcs():
+        if h is f or not prog.same_unit(f.module, h.module):
+            continue
+        for c in h.own_nodes():
+            if not isinstance(c, _ast.Call):
+                continue
+            nm = c.func.id if isinstance(c.func, _ast.Name) else (c.func.attr if isinstance(c.func, _ast.Attribute) else None)
+            if nm != f.name:
+                continue
+            g = prog.resolve_callable(h, h.module, c.func)
+            while isinstance(g, _Partial):
+                g = g.target
+            if g is not f or any(isinstance(a, _ast.Starred) for a in c.args):
+                continue
+            b = dict(zip(f.params, c.args))
+            b.update({k.arg: k.value for k in c.keywords if k.arg})
+            a = b.get(base)
+            if isinstance(a, _ast.Name):
+                r = _layout_of(prog, h, a.id, depth + 1)
+                if r is not None:
+                    return r
+    return None
+
+
+def flat_alias_of_like(f, prog=None):
     """[(store node, alias name, base name, alias assignment, allocation or None)] for stores made through a flattened alias
     (`x = out.ravel()` / `out.reshape(-1)` / `out.flatten()`) of an array that follows the input's memory layout (allocated
     by a `*_like` constructor) or that is always a copy (`flatten`).  `ravel` / `reshape(-1)` give a view only for a
-    C-contiguous array: for a column-major input the alias is a copy and every store through it is lost."""
+    C-contiguous array: for a column-major input the alias is a copy and every store through it is lost.  With `prog`, the
+    stores may sit in a helper of the unit that f calls with the array (the helper's parameter is followed back to the
+    allocation at the call sites), and an array f itself received is followed to its callers."""
+    import ast as _ast
+    from .program import Func as _Func, Partial as _Partial
+    out = []
+    scopes = [f]
+    if prog is not None:
+        seen = {id(f)}
+        work = [f]
+        while work:
+            h = work.pop()
+            for c in h.own_nodes():
+                if isinstance(c, _ast.Call) and isinstance(c.func, (_ast.Name, _ast.Attribute)):
+                    g = prog.resolve_callable(h, h.module, c.func)
+                    while isinstance(g, _Partial):
+                        g = g.target
+                    if isinstance(g, _Func) and id(g) not in seen and not g.is_lambda and prog.same_unit(f.module, g.module):
+                        seen.add(id(g))
+                        scopes.append(g)
+                        work.append(g)
+    for g in scopes:
+        flat = {}
+        for n in g.own_nodes():
+            if isinstance(n, _ast.Assign) and isinstance(n.targets[0], _ast.Name) and isinstance(n.value, _ast.Call) and \
+                    isinstance(n.value.func, _ast.Attribute) and n.value.func.attr in ('ravel', 'reshape', 'flatten') and \
+                    isinstance(n.value.func.value, _ast.Name):
+                if n.value.func.attr == 'reshape' and not (len(n.value.args) == 1 and _flat_shape(n.value.args[0])):
+                    continue
+                flat[n.targets[0].id] = (n.value.func.value.id, n)
+        for x in g.own_nodes():
+            if isinstance(x, _ast.Subscript) and isinstance(x.ctx, _ast.Store) and isinstance(x.value, _ast.Name) and x.value.id in flat:
+                base, node = flat[x.value.id]
+                like = _layout_of(prog, g, base)
+                if like is not None or node.value.func.attr == 'flatten':
+                    out.append((x, x.value.id, base, node, like))
+    return out
+
+
+def _flat_shape(e):
     import ast as _ast
     from .program import norm as _norm
-    flat = {}
-    for n in f.own_nodes():
-        if isinstance(n, _ast.Assign) and isinstance(n.targets[0], _ast.Name) and isinstance(n.value, _ast.Call) and \
-                isinstance(n.value.func, _ast.Attribute) and n.value.func.attr in ('ravel', 'reshape', 'flatten') and \
-                isinstance(n.value.func.value, _ast.Name):
-            flat[n.targets[0].id] = (n.value.func.value.id, n)
-    out = []
-    for x in f.own_nodes():
-        if isinstance(x, _ast.Subscript) and isinstance(x.ctx, _ast.Store) and isinstance(x.value, _ast.Name) and x.value.id in flat:
-            base, node = flat[x.value.id]
-            allocs = [v for v in f.local_assigns().get(base, []) if isinstance(v, _ast.Call)]
-            like = [v for v in allocs if _norm(v.func).split('.')[-1].endswith('_like')]
-            if like or node.value.func.attr == 'flatten':
-                out.append((x, x.value.id, base, node, like[0] if like else None))
-    return out
+    return _norm(e) in ('-1', '(-1,)', '[-1]')
 
 
 VALUE_CHANGERS = ('nan_to_num', 'clip', 'round', 'around', 'rint', 'abs', 'absolute', 'trunc', 'floor', 'ceil', 'fillna', 'where',
